@@ -229,6 +229,18 @@ def d3(ctx, rep):
                 if not guarded:
                     ok = False
                     why = f'`{short(s, 50)}` overwrites the user-supplied {pname}'
+        # a numeric bound must be selected by None-ness, never by truthiness: 0 is a legitimate bound
+        aliases = {loc.targets[0].id for loc in locs}
+        for x in walk_no_nested(fit.node):
+            is_opt = (is_self_attr(x, fit.self_name, attr) or (isinstance(x, ast.Name) and x.id in aliases)) and isinstance(getattr(x, 'ctx', None), ast.Load)
+            if not is_opt:
+                continue
+            par = x._parent
+            truthy = isinstance(par, ast.BoolOp) or (isinstance(par, ast.UnaryOp) and isinstance(par.op, ast.Not)) \
+                or (isinstance(par, (ast.If, ast.IfExp, ast.While)) and par.test is x)
+            if truthy:
+                ok = False
+                why = f'`{short(par, 60)}` selects the {pname} bound by truthiness: a user-supplied bound of 0 is treated as absent'
         rep.check('D3.bounds', fit, locs[0] if locs else direct[0], ok, f'{pname}: data-driven value only when the option is None', why,
                   construct=f'self.{attr} honoured')
     # the standardised bounds a, b are computed from the corresponding (user or data-driven) bound
